@@ -334,6 +334,7 @@ func (e *Engine) builtin(st *State, f *Frame, res ssa.Value, in ssa.Instruction,
 		}
 		o.ch.closed = true
 		e.wakeSelectors(st, c.obj)
+		e.wakeSenders(st, c.obj)
 		if len(o.ch.buf) == 0 {
 			for _, t := range st.threads {
 				if t.waitCh == c.obj && !t.done {
@@ -610,7 +611,24 @@ func (e *Engine) chanSend(st *State, f *Frame, in ssa.Instruction, c ChanV, v Va
 		e.wakeSelectors(st, c.obj)
 		return
 	}
+	if _, isSend := in.(*ssa.Send); isSend && (len(st.resume) > 0 || e.hasRunnable(st)) {
+		// another goroutine may still come to receive: wait (the send is re-executed when a receiver arrives,
+		// a buffer slot frees up, or the channel is closed - in which case it panics, as in Go)
+		f.ip--
+		st.threads = append(st.threads, &Thread{frames: st.frames, waitCh: -3, waitMu: c.obj, id: st.curTID})
+		st.frames = nil
+		return
+	}
 	e.blocked(st, f, in, fmt.Sprintf("send on full channel (cap %d, len %d) with no receiver", o.ch.cap, len(o.ch.buf)))
+}
+
+// wakeSenders makes goroutines blocked in a send on ch runnable (they re-execute the send).
+func (e *Engine) wakeSenders(st *State, ch int) {
+	for _, t := range st.threads {
+		if t.waitCh == -3 && t.waitMu == ch && !t.done {
+			t.waitCh, t.waitMu = 0, 0
+		}
+	}
 }
 
 func (e *Engine) chanRecv(st *State, f *Frame, x *ssa.UnOp, c ChanV, commaOk bool) {
@@ -631,6 +649,7 @@ func (e *Engine) chanRecv(st *State, f *Frame, x *ssa.UnOp, c ChanV, commaOk boo
 		v := o.ch.buf[0]
 		o.ch.buf = append([]Value(nil), o.ch.buf[1:]...)
 		set(v, true)
+		e.wakeSenders(st, c.obj)
 		return
 	}
 	if o.ch.closed {
@@ -661,6 +680,7 @@ func (e *Engine) suspendRecv(st *State, ch int, x ssa.Value, commaOk bool, et ty
 	t := &Thread{frames: st.frames, waitCh: ch, recv: x, commaOk: commaOk, elemT: et, id: st.curTID}
 	st.threads = append(st.threads, t)
 	st.frames = nil
+	e.wakeSenders(st, ch)
 	return true
 }
 
